@@ -15,6 +15,7 @@ import (
 	"github.com/tetratelabs/wazero/verifharness/memreplay"
 	"github.com/tetratelabs/wazero/verifharness/registry"
 	"github.com/tetratelabs/wazero/verifharness/sysdef"
+	"github.com/tetratelabs/wazero/verifharness/termination"
 	"github.com/tetratelabs/wazero/verifharness/wasifs"
 	"github.com/tetratelabs/wazero/verifharness/wasisafe"
 )
@@ -42,6 +43,8 @@ var cmds = map[string]func([]string){
 	"replay-wasisafe":     wasisafe.Main,
 	"wasisafe-child":      wasisafe.Child,
 	"trace-boundary":      boundary.Main,
+	"run-termination":     termination.Main,
+	"termination-child":   termination.Child,
 	"fc-child":            fcache.Child,
 	"fc-replay":           fcache.ReplayProc,
 	"fc-gate":             fcache.ReplayGate,
